@@ -24,7 +24,7 @@ ASSUMPTIONS = ['bootloader protocol: 0x10 info, 0x12 mapping, 0x14 load buffer (
 REQUIRED = ['mon.flashes_completed', 'mon.images_compared', 'mon.load_buffer_packets', 'mon.too_large_refused',
             'mon.reply_scripts', 'mon.aborted_after_failure', 'mon.page_override', 'mon.exact_multiples',
             'mon.flashes_with_progress_callback', 'mon.late_answer_then_failing_write',
-            'mon.second_flash_with_the_same_bootloader']
+            'mon.second_flash_with_the_same_bootloader', 'mon.unanswered_write_on_a_busy_downlink']
 EXHAUSTIVE = {'quick': False, 'thorough': False}
 DESC_TIMEOUT = 1200
 
@@ -101,6 +101,11 @@ class Target:
             self.attempts[ci] = at + 1
             action = self.script.get((ci, at), 'ok')
             self.log.append(('write', bpage, fpage, count, action))
+            if action == 'foreign':
+                # the command is lost, but the downlink is not silent: the other target answers something of its own
+                other = 0xFE if self.tid == 0xFF else 0xFF
+                self.out.append(bytes([other, 0x18, 1, 0]))
+                return
             if action == 'drop_request':
                 return
             if action == 'neg':
@@ -359,6 +364,17 @@ def run(desc, ctx):
                         ctx.count('mon.reply_scripts')
                         flash_once(ctx, 0xFF, ps, bp, fp, sp, length, None, script, rnd, 'faults')
                         n += 1
+        # a write command that is never answered while unrelated packets keep arriving
+        for ci in range(3):
+            for pattern in ('all', 'last', 'alternate'):
+                script = {}
+                for at in range(0, 8):
+                    script[(ci, at)] = 'foreign' if (pattern == 'all' or (pattern == 'last' and at >= 5) or
+                                                     (pattern == 'alternate' and at % 2)) else 'drop_request'
+                ctx.count('mon.reply_scripts')
+                ctx.count('mon.unanswered_write_on_a_busy_downlink')
+                flash_once(ctx, 0xFF, ps, bp, fp, sp, length, None, script, rnd, 'busy-downlink')
+                n += 1
         # a late answer to one write command (its duplicate stays queued) followed by a failing next command
         for ci in range(2):
             for late_at in (0, 1):
